@@ -2,6 +2,7 @@ import Martian.Lemmas.Shutdown
 import Martian.Generated.Shutdown
 import Martian.Props.C07.Faults
 import Martian.Props.C07.Tunnels
+import Martian.Props.C07.Upload
 /-!
 C07 — Shutdown completes in-flight exchanges, refuses new ones and closes everything.
 
@@ -338,7 +339,8 @@ theorem shutdown_completes_by_proxy_moves_alone {s : Sys} (hr : Reachable s) (hc
       | none => rw [hs] at hen; simp at hen
       | some s1 =>
         have hlt := internal_step_decreases hs hi
-        have hp1 : AllPlain s1 := step_allPlain hp (by intro k e; subst e; simp [Label.internal] at hi) hs
+        have hp1 : AllPlain s1 := step_allPlain hp (by intro k e; subst e; simp [Label.internal] at hi)
+          (by intro k rc e; subst e; simp [Label.internal] at hi) hs
         obtain ⟨sched, s', h1, h2, h3, h4⟩ :=
           ih (measure s1) (by omega) (reachable_step hr hs) (step_cpc_ne_idle hs hc) hp1 rfl
         refine ⟨l :: sched, s', ?_, ?_, ?_, h4⟩
